@@ -193,23 +193,27 @@ Section SafeMapProofs.
   Qed.
 
   (* the object respects the declared section structure [sections_of]: the i-th step of an invocation
-     exists in the declaration; a section declared non-writing leaves the shared state unchanged; a step that
+     exists in the declaration; a section declared non-writing leaves the shared state unchanged; the outcome
+     (result or continuation) of a section declared non-reading does not depend on the shared state; a step that
      continues moves to the next declared section of the same operation *)
   Lemma model_respects_sections (m : smap) (l : local K V D) :
-    exists md w, nth_error (sections_of (op_of_local l)) (section_index l) = Some (md, w)
+    exists md rd w, nth_error (sections_of (op_of_local l)) (section_index l) = Some (md, rd, w)
       /\ (w = false -> fst (cstep m l) = m)
+      /\ (rd = false -> forall m2, snd (cstep m2 l) = snd (cstep m l))
       /\ (md = Rd <-> w = false)
       /\ (forall l', snd (cstep m l) = inl l' ->
             op_of_local l' = op_of_local l /\ section_index l' = S (section_index l)).
   Proof.
     destruct l as [o|k v]; simpl.
     - destruct o; simpl;
-        try (eexists _, _; split; [reflexivity|]; split; [intros _; reflexivity|]; split; [tauto|]; intros l'; discriminate);
-        try (eexists _, _; split; [reflexivity|]; split; [discriminate|]; split; [split; discriminate|]; intros l'; discriminate).
-      eexists _, _. split; [reflexivity|]. split; [|split; [tauto|]].
+        try (eexists _, _, _; split; [reflexivity|]; split; [intros _; reflexivity|]; split; [discriminate|];
+             split; [tauto|]; intros l'; discriminate);
+        try (eexists _, _, _; split; [reflexivity|]; split; [discriminate|]; split; [intros _ m2; reflexivity|];
+             split; [split; discriminate|]; intros l'; discriminate).
+      eexists _, _, _. split; [reflexivity|]. split; [|split; [discriminate|split; [tauto|]]].
       + intros _. destruct (lookup k m); reflexivity.
       + intros l'. destruct (lookup k m); [discriminate|]. intros [= <-]. split; reflexivity.
-    - eexists _, _. split; [reflexivity|]. split; [discriminate|]. split; [split; discriminate|].
+    - eexists _, _, _. split; [reflexivity|]. split; [discriminate|]. split; [discriminate|]. split; [split; discriminate|].
       intros l'. destruct (lookup k m); discriminate.
   Qed.
 
